@@ -411,6 +411,21 @@ func TestC12(t *testing.T) {
 	var early []Case
 	rapid.Check(t, func(rt *rapid.T) {
 		gw := func(l string) XY {
+			if rapid.IntRange(0, 5).Draw(rt, l+"nearstd") == 0 {
+				// a standard white as the library spells it, as a standard quotes it (fewer digits), or a hair beside it
+				w := rapid.SampledFrom([]XY{{ciexyy.D50.X, ciexyy.D50.Y}, {ciexyy.D65.X, ciexyy.D65.Y}, {0.3127, 0.3290}, {0.3457, 0.3585}, {0.34567, 0.35850}, {0.31271, 0.32902}, {0.31270, 0.32900},
+					{0.44757, 0.40745}, {1.0 / 3, 1.0 / 3}, {0.34842, 0.35161}, {0.31006, 0.31616}, {0.3324, 0.3474}}).Draw(rt, l+"std")
+				if rapid.Bool().Draw(rt, l+"beside") {
+					for ax := 0; ax < 2; ax++ {
+						d := float32(math.Pow(10, rapid.Float64Range(-7.5, -3).Draw(rt, l+"off")))
+						if rapid.Bool().Draw(rt, l+"neg") {
+							d = -d
+						}
+						w[ax] += d
+					}
+				}
+				return w
+			}
 			if rapid.IntRange(0, 3).Draw(rt, l+"kind") == 0 {
 				T := rapid.Float64Range(2000, 25000).Draw(rt, l+"cct")
 				w := locus(T)
